@@ -10,7 +10,7 @@ import itertools
 import numpy as np
 import z3
 
-from yv.engine import explore, real, stubs
+from yv.engine import explore, harness, real, stubs
 from yv.engine.real import S, Ctx
 from yv.props import common as cm
 from yv.refs import ew
@@ -305,51 +305,44 @@ def run(chk, only=None):
         if only and only not in case["kind"]:
             continue
         with Ctx(chk.seed) as ctx, cm.fixed_nf():
-            P = cm.ew_params(ctx)
-            Q2 = ctx.var("Q2", 0, None, wlo=1, whi=20000)
-            try:
-                with stubs.cf_stubs():
-                    prs = pairs_for(case, P, Q2)
-            except Exception as e:  # noqa
-                # the code raised on a documented configuration: C16 owns that; here it blocks the comparison
-                chk.notes.append(f"{case}: raises {type(e).__name__}: {str(e)[:80]}")
-                chk.section("raised", n=1)
-                key = f"raise:{case['kind']}:{case.get('process', 'CC')}:{case.get('sf', '')}:{case.get('hq', '')}"
-                chk.obligations += 1
-                chk.report(key, f"weights cannot be computed for {case}: {type(e).__name__}: {str(e)[:80]}", "raise",
-                           dict(case=case))
-                continue
-            facts = ctx.facts()
-            eqs = []
-            for lab, impl, ref in prs:
-                if isinstance(ref, bool) and not isinstance(impl, (S,)):
-                    eqs.append((lab, z3.BoolVal(bool(impl) == bool(ref))))
-                else:
-                    eqs.append((lab, _eq_term(impl, ref)))
-            n_pairs += len(eqs)
             cname = ":".join(f"{k}={v}" for k, v in case.items())
 
-            def mk_replay(lab, ctx=ctx, case=case):
-                def rp(model):
-                    asg = explore.model_to_assign(ctx, model)
-                    params = {k: float(asg.get(k, ctx.assign.get(k, 1))) for k in cm.EW_PARAMS + ["Q2"]}
-                    return "case", dict(case=case, params=params, label=lab)
+            def body(case=case):
+                P = cm.ew_params(ctx)
+                Q2 = ctx.var("Q2", 0, None, wlo=1, whi=20000)
+                with stubs.cf_stubs():
+                    return pairs_for(case, P, Q2)
 
-                return rp
+            ex = explore.Explorer(ctx, max_paths=16, timeout_ms=3000)
+            paths = ex.run(body)
+            chk.paths += len(paths)
+            if ex.bound_hit:
+                chk.inconclusive_note(f"{cname}: path bound hit")
+            for p in paths:
+                ctx.assign = dict(p.assign)
+                if p.kind == "exc":
+                    e = p.value
+                    # the code raised on a documented configuration: C16 owns that; here it blocks the comparison
+                    chk.notes.append(f"{case}: raises {type(e).__name__}: {str(e)[:80]}")
+                    chk.section("raised", n=1)
+                    key = f"raise:{case['kind']}:{case.get('process', 'CC')}:{case.get('sf', '')}:{case.get('hq', '')}"
+                    chk.obligations += 1
+                    chk.report(key, f"weights cannot be computed for {case}: {type(e).__name__}: {str(e)[:80]}", "raise", dict(case=case))
+                    continue
+                prs = p.value
+                n_pairs += len(prs)
 
-            conj = z3.And(*[e for _, e in eqs]) if eqs else z3.BoolVal(True)
-            v = chk.prover.prove(conj, facts, cname)
-            chk.evaluations += 1
-            if v.status == "unsat":
-                chk.obligations += len(eqs)
-                chk.discharged += len(eqs)
-                chk.nontrivial.add(cname)
-                if len(chk.samples) < 4:
-                    chk.sample({"case": case, "pairs": [l for l, _ in eqs][:12], "verdict": "all equal for all parameters"})
-                continue
-            for lab, e in eqs:
-                chk.prove(f"{cname}:{lab}", e, facts, key=f"weight:{case['kind']}:{lab}:{case.get('process', 'CC')}:pid{case.get('pid')}",
-                          replay=mk_replay(lab), what=f"{cname}: {lab} differs from the PDG/CKM oracle")
+                def mk_replay(lab, ctx=ctx, case=case):
+                    def rp(model):
+                        asg = explore.model_to_assign(ctx, model)
+                        params = {k: float(asg.get(k, ctx.assign.get(k, 1))) for k in cm.EW_PARAMS + ["Q2"]}
+                        return "case", dict(case=case, params=params, label=lab)
+
+                    return rp
+
+                harness.prove_pairs(chk, cname, prs, ctx.facts() + p.pc, mk_replay,
+                                    lambda lab, case=case: f"weight:{case['kind']}:{lab}:{case.get('process', 'CC')}:pid{case.get('pid')}",
+                                    sample={"case": case, "pairs": [l for l, _, _ in prs][:12], "verdict": "all equal for all parameters"})
     # vacuity: a perturbed oracle (sign of the interference) must be refuted and replayed
     with Ctx(chk.seed) as ctx:
         P = cm.ew_params(ctx)
